@@ -47,7 +47,7 @@ for d in sorted(p for p in S.iterdir() if (p / "meta.json").exists()):
     conf = m.get("confirmed", {})
     verified = conf.get("demo_passes_unmodified") and conf.get("demo_fails_patched") and conf.get("compiles") and "not-passing 0" in str(conf.get("baseline_with_patch"))
     rows.append(f"| {d.name} | {', '.join(m.get('files_changed', []))} | {m.get('summary', '')[:170].replace('|', '/')}... | "
-                f"{'yes' if verified else 'NO'} | {first or ('**missed**' if not cb else '-')} | {others or '-'} |")
+                f"{'yes' if verified else 'NO'} | {first or ('**missed** - ' + m.get('missed_reason', '') if own not in cb else '-')} | {others or '-'} |")
 readme = """# Seeded changes
 
 Each directory holds one realistic change to pdb2pqr that breaks the named property while the package still compiles and the
